@@ -785,9 +785,9 @@ class Optimizer(object):
                 # constant value for the acq. func. to return anything
                 yi_failed_value = 0
             elif self.filter_failures == "mean":
-                yi_failed_value = np.mean(yi_no_failure).tolist()
+                yi_failed_value = np.mean(yi_no_failure, axis=0).tolist()
             else:
-                yi_failed_value = np.max(yi_no_failure).tolist()
+                yi_failed_value = np.max(yi_no_failure, axis=0).tolist()
 
             yi = [v if v != OBJECTIVE_VALUE_FAILURE else yi_failed_value for v in yi]
 
